@@ -12,6 +12,8 @@ pub struct Flounder {
     verif_budget_only: bool,
     #[cfg(flounder_verif)]
     verif_last_go: Option<(u8, Option<Duration>)>,
+    #[cfg(flounder_verif)]
+    verif_bestmove_lines: Vec<String>,
 }
 
 impl Flounder {
@@ -23,6 +25,8 @@ impl Flounder {
             verif_budget_only: false,
             #[cfg(flounder_verif)]
             verif_last_go: None,
+            #[cfg(flounder_verif)]
+            verif_bestmove_lines: Vec::new(),
         }
     }
 
@@ -168,9 +172,13 @@ impl Flounder {
         let (_, best_move) = self.searcher.find_best_move(&self.board, depth, time_limit);
 
         if let Some(mv) = best_move {
+            #[cfg(flounder_verif)]
+            self.verif_bestmove_lines.push(format!("bestmove {}", mv.to_algebraic()));
             println!("bestmove {}", mv.to_algebraic());
         } else {
             // No legal moves
+            #[cfg(flounder_verif)]
+            self.verif_bestmove_lines.push("bestmove 0000".to_string());
             println!("bestmove 0000");
         }
     }
@@ -248,6 +256,11 @@ impl Flounder {
 impl Flounder {
     pub fn verif_handle_command(&mut self, command: &str) {
         self.handle_command(command);
+    }
+
+    /// In-process image of the bestmove lines printed since the last call.
+    pub fn verif_take_bestmove_lines(&mut self) -> Vec<String> {
+        std::mem::take(&mut self.verif_bestmove_lines)
     }
 
     pub fn verif_board(&self) -> &Board {
